@@ -4,7 +4,7 @@ use crate::gen;
 use crate::runner::{CheckSpec, Family, Judge};
 
 pub fn all_props() -> Vec<&'static str> {
-    vec!["C02", "C03", "C04", "C06", "C08", "C09", "C10", "C11", "C12", "C13", "C16", "C17", "C18"]
+    vec!["C02", "C03", "C04", "C06", "C07", "C08", "C09", "C10", "C11", "C12", "C13", "C16", "C17", "C18"]
 }
 
 const REAL_RUST: &[&str] = &["/repo/src (blake3 crate, built from the working tree with --cfg blake3_team_blake3_verif)", "rayon-core", "memmap2", "digest", "zeroize", "arrayvec", "kernel VFS (scratch files)"];
@@ -162,6 +162,19 @@ pub fn spec(prop: &str) -> Option<CheckSpec> {
             real: vec!["/repo/b3sum/src/main.rs (as a process, and compiled into the harness for parse_check_line / filepath_to_string / unescape)", "/repo/src"],
             stubs: vec!["wild::args_os = std::env::args_os", "clap without wrap_help"],
             assumptions: vec!["the checkfile format model in cli.rs: a line whose text after an optional leading backslash starts with 'BLAKE3 (' is tagged (split at the last ') = '), otherwise plain (split at the first double space); 64 lowercase hex digits; escapes \\\\ \\n \\r only; no NUL / U+FFFD / empty path", "'for arbitrary text' is only reached in the neighbourhood of real records (single-character damage and truncation)"],
+        }),
+        "C07" => Some(CheckSpec {
+            prop: "C07",
+            level: "exploration",
+            rule: "What the simulator controls here is the environment of native code: where every caller-visible buffer lives and what surrounds a call. Kernel family: direct calls of every kernel of every flavour the CPU can run - unix assembly (ca_), C intrinsics and portable C (ci_), Windows-GNU assembly assembled for ELF and called through a Win64 trampoline (win_), and the crate's own kernels through Platform - with arguments inside the documented domain (num_inputs 0..2*degree+1, 1 or 16 blocks per input, counters near 2^32 and 2^64, any flag bytes, 1..33 XOF blocks); each buffer (inputs, input-pointer array, key/cv, block, out) sits flush before or after a PROT_NONE page or at a misaligned interior position, canaries fill the rest of its pages; assembly and C kernels are entered through a trampoline that plants per-call pseudo-random sentinels in the callee-saved registers of the ABI (SysV: rbx rbp r12-r15; Win64 additionally rdi rsi xmm6-xmm15) and compares them, rsp and DF afterwards. API families: the C06 histories and Rust reader/XOF histories with guard-placed inputs, outputs and (C) hasher objects. Monitors: SIGSEGV/SIGBUS/SIGILL (reported through a crash record, replayed in a child process), canaries, register sentinels. distinct_nontrivial = distinct (kernel x input count x block count x placement) shapes + API state shapes.",
+            families: vec![
+                Family { name: "c07-kernels", gen: gen::c07_kernels, quick: 60_000, thorough: 3_000_000, judge: Judge::Exec },
+                Family { name: "c07-c-api", gen: gen::c07_capi, quick: 20_000, thorough: 600_000, judge: Judge::Exec },
+                Family { name: "c07-rust-api", gen: gen::c07_rustapi, quick: 20_000, thorough: 600_000, judge: Judge::Exec },
+            ],
+            real: vec!["/repo/c: all four unix .S files, all four windows_gnu .S files (assembled for ELF), blake3_{portable,sse2,sse41,avx2,avx512}.c, blake3.c, blake3_dispatch.c", "/repo/src kernels through blake3::platform::Platform"],
+            stubs: vec!["MSVC .asm, NEON and wasm32 kernels cannot be built or run here"],
+            assumptions: vec!["reads from inside the caller's own larger allocation are only visible where the guard page is adjacent", "monitors are observations on seeded, replayable executions; undefined behaviour that leaves no trace in memory, registers or signals is not seen (the ASan/UBSan/Miri replays of the thorough tier narrow this)"],
         }),
         _ => None,
     }
